@@ -501,9 +501,9 @@ def cond_env(stmts: Sequence[ast.stmt], env: Optional[Dict[str, ast.AST]] = None
             yes, no = cond_env(st.body, env, keep), cond_env(st.orelse, env, keep)
             test = subst(st.test, env)
             for key in set(yes) | set(no):
-                a, b = yes.get(key), no.get(key)
-                if a is None or b is None:
-                    continue
+                # a name bound on one arm only keeps, on the other, what it held before (itself when it came from outside)
+                before = env.get(key, ast.Name(id=key, ctx=ast.Load()))
+                a, b = yes.get(key, before), no.get(key, before)
                 env[key] = a if txt(a) == txt(b) else ast.IfExp(test=test, body=a, orelse=b)
         elif isinstance(st, (ast.Return, ast.Assert, ast.Expr, ast.Pass, ast.Continue, ast.Break, ast.Raise)):
             continue
